@@ -30,6 +30,9 @@ HANDWRITTEN = [
     ('surrogate-literal', b'char s[] = "\xed\xa8\x80";\n'),
     ('extern-nolinkage', 'int g(void){ int x = 1; { extern int x; return x; } }\n'),
     ('keyword-macro-twice', '#define T int\nT a; T b;\n'),
+    ('pragma-eof', '#pragma once'), ('pragma-eof2', 'int x;\n#pragma'), ('pragma-eof3', '#pragma a b c'), ('line-eof', '#line 3'), ('line-eof2', '# 3 "f.c" 1'),
+    ('undef-eof', '#undef X'), ('define-eof2', '#define X 1'), ('define-eof3', '#define f(a,b) a'), ('hash-word-eof', '#foo'), ('ident-eof', 'int x'),
+    ('comment-line-eof', 'int x; // c'), ('macro-call-eof2', '#define f(x) x\nint a = f(1'), ('string-eof', 'char *s = "abc'),
     ('empty', ''), ('nul-byte', b'int x;\x00int y;\n'), ('only-backslash', '\\'), ('unterminated-comment', '/* x'),
     ('unterminated-string', '"abc'), ('hash-eof', '#'), ('define-eof', '#define'), ('define-func-eof', '#define f('),
     ('macro-call-eof', '#define f(x) x\nf(1,'), ('line-huge', '#line 99999999999999999999\nint x = y;\n'),
@@ -197,6 +200,30 @@ def run(ctx):
                 cases.append(('truncation', data[:c], args, True))
         for name, src in deep_inputs(thorough):
             cases.append(('deep:' + name, src.encode(), ['-t', 'x86_64-sysv'], False))
+        # tokens whose length sits on a power-of-two boundary (buffer growth), under the sanitizer
+        for k in range(3, 14):
+            for dlt in (-2, -1, 0, 1, 2):
+                n = (1 << k) + dlt
+                if n < 1:
+                    continue
+                idn = 'a' * n
+                for nm, src in (('ident', 'int %s = 1;\n' % idn), ('string', 'char s[] = "%s";\n' % ('x' * n)), ('number', 'int x = 0%s;\n' % ('0' * n)),
+                                ('macro-name', '#define %s 1\nint y = %s;\n' % (idn, idn)), ('macro-arg', '#define f(x) #x\nchar *t = f(%s);\n' % idn),
+                                ('wide-string', 'int w[] = L"%s";\n' % ('y' * n)), ('char-const', "int c = '%s';\n" % ('z' * n)),
+                                ('member', 'struct { int %s; } v = { .%s = 1 };\n' % (idn, idn)), ('label', 'void f(void) { %s: goto %s; }\n' % (idn, idn))):
+                    cases.append(('boundary:%s:%d' % (nm, n), src.encode(), ['-t', 'x86_64-sysv'], True))
+                    if nm in ('ident', 'string', 'macro-arg'):
+                        cases.append(('boundary-E:%s:%d' % (nm, n), src.encode(), ['-t', 'x86_64-sysv', '-E'], True))
+        # arrays/tables growing past their initial capacity: counts around powers of two
+        for k in range(2, 11):
+            for dlt in (-1, 0, 1):
+                n = (1 << k) + dlt
+                cases.append(('count:params:%d' % n, ('void f(%s) {}\n' % ','.join('int p%d' % i for i in range(n))).encode(), ['-t', 'x86_64-sysv'], True))
+                cases.append(('count:macro-params:%d' % n, ('#define f(%s) 0\nint x = f(%s);\n' % (','.join('a%d' % i for i in range(n)), ','.join(['1'] * n))).encode(), ['-t', 'x86_64-sysv'], True))
+                cases.append(('count:names:%d' % n, (''.join('int n%d;' % i for i in range(n)) + '\n').encode(), ['-t', 'x86_64-sysv'], True))
+                cases.append(('count:labels:%d' % n, ('void f(void) { %s }\n' % ' '.join('l%d: goto l%d;' % (i, i) for i in range(n))).encode(), ['-t', 'x86_64-sysv'], True))
+                cases.append(('count:strings:%d' % n, ('char *a[] = { %s };\n' % ','.join('"s%d"' % i for i in range(n))).encode(), ['-t', 'x86_64-sysv'], True))
+                cases.append(('count:stmts:%d' % n, ('int f(int x) { %s return x; }\n' % ' '.join('x += %d;' % i for i in range(n))).encode(), ['-t', 'x86_64-sysv'], True))
 
         if os.environ.get('C19_ONLY'):
             cases = [c for c in cases if c[0].startswith(tuple(os.environ['C19_ONLY'].split(',')))]
@@ -221,6 +248,7 @@ def run(ctx):
             stats['inputs'] += 1
             k0 = kind.split(':')[0]
             stats['by_kind'][k0] = stats['by_kind'].get(k0, 0) + 1
+            kind = k0 if k0 in ('boundary', 'boundary-E', 'count') else kind
             end = sig.split(':')[0] if sig else 'exit%d' % rc
             stats['endings'][end] = stats['endings'].get(end, 0) + 1
             nontrivial.add(hashlib.md5(data).hexdigest() + end)
@@ -240,7 +268,11 @@ def run(ctx):
         os.makedirs(work)
         okc = os.path.join(work, 'ok.c')
         open(okc, 'w').write(''.join('int v%d = %d;\n' % (i, i) for i in range(3000)))
+        smallc = os.path.join(work, 'small.c')
+        open(smallc, 'w').write('int v = 1;\n')
         io_cases = [
+            ('small output to /dev/full', [exe, '-o', '/dev/full', smallc], None),
+            ('small -E output to /dev/full', [exe, '-E', '-o', '/dev/full', smallc], None),
             ('output to /dev/full', [exe, '-o', '/dev/full', okc], None),
             ('output path is a directory', [exe, '-o', work, okc], None),
             ('input does not exist', [exe, os.path.join(work, 'missing.c')], None),
@@ -258,6 +290,14 @@ def run(ctx):
         stats['inputs'] += 1
         if rc == 0:
             ctx.violation('stdout redirected to /dev/full: status 0', {'cmd': 'cproc-qbe ok.c >/dev/full'}, 'json', key='io:stdout-full')
+        for nm, f in (('small', smallc),):
+            for redir in ('>/dev/full', '>&-'):
+                for opt in ('', '-E '):
+                    rc, out, err = sh('%s %s%s %s' % (exe, opt, f, redir), timeout=20)
+                    stats['inputs'] += 1
+                    if rc == 0:
+                        ctx.violation('%s output, stdout %s, %s: status 0 although nothing could be written' % (nm, redir, opt or 'compile'),
+                                      {'cmd': 'cproc-qbe %s%s.c %s' % (opt, nm, redir)}, 'json', key='io:stdout-failure-small')
         rc, out, err = sh('%s %s >&-' % (exe, okc), timeout=20)
         stats['inputs'] += 1
         if rc == 0:
